@@ -5,6 +5,7 @@
 From Coq Require Import ZArith List String Bool Lia.
 From NadaV.PyMini Require Import PyMini.
 From NadaV.Model Require Import Rules Corr Mir Surface Trace Compile.
+From NadaV.Spec Require MirSpec.
 Import ListNotations.
 Open Scope Z_scope.
 Open Scope list_scope.
@@ -209,4 +210,23 @@ Proof.
   destruct (existsb (has_no_id rho) (p_outs p)); cbn [bind] in H; try discriminate.
   destruct (compile (store s') [] couts) as [[m' fs']| |] eqn:Hc; cbn [bind fst snd] in H; try discriminate.
   inversion H; subst. eapply compile_closed; eauto.
+Qed.
+
+(* ---- soundness of the boolean checker used on implementation MIRs (closedness part) *)
+Lemma count_key_pos k t : (0 < count_key k t)%nat -> In k (keys t).
+Proof.
+  unfold count_key, keys. induction t as [|e t IH]; simpl; [lia|].
+  destruct (Z.eqb (e_key e) k) eqn:E; simpl; intros H.
+  - left. apply Z.eqb_eq. exact E.
+  - right. apply IH. exact H.
+Qed.
+
+Lemma table_closedb_closed m own t : NadaV.Spec.MirSpec.table_closedb m own t = true -> closed t.
+Proof.
+  unfold NadaV.Spec.MirSpec.table_closedb. rewrite forallb_forall. intros H e He o Ho.
+  specialize (H e He). unfold NadaV.Spec.MirSpec.entry_closedb in H.
+  apply andb_prop in H. destruct H as [H _]. apply andb_prop in H. destruct H as [H _].
+  apply andb_prop in H. destruct H as [_ Hf].
+  rewrite forallb_forall in Hf. specialize (Hf o Ho).
+  apply count_key_pos. apply Nat.eqb_eq in Hf. rewrite Hf. constructor.
 Qed.
